@@ -3,9 +3,9 @@ mod verif_kani {
     use super::*;
 
     #[kani::proof]
-    #[kani::unwind(5)]
+    #[kani::unwind(4)]
     fn chunk_positions_cover_file() {
-        const N: usize = 36;
+        const N: usize = 34;
         let mut data: [u8; N] = kani::any();
         data[..8].copy_from_slice(&PNG_ID);
         let len: usize = kani::any();
